@@ -5,7 +5,7 @@ import numpy as np
 
 ID = "C10"
 PROPS_FILE = "theories/Props/C10.v"
-EXTRACT = ("theories/Extract/XC10.v", "c10", ["entry_emd", "entry_emdc", "entry_emdl", "entry_emdlf", "entry_asis", "entry_w32", "entry_cert", "entry_partial", "entry_brute"])
+EXTRACT = ("theories/Extract/XC10.v", "c10", ["entry_emd", "entry_emdc", "entry_emdl", "entry_emdlf", "entry_asis", "entry_w32", "entry_p32", "entry_cert", "entry_partial", "entry_brute"])
 PYX = {"_fastemd.pyx": ["emd_hat_int32"]}
 RULE = ("one case = one instance (p, q, c, penalty|None) plus an encoding; the implementation is called through "
         "centrosome.fastemd for all variants: flow type NO_FLOW / WITHOUT_TRANSHIPMENT_FLOW / WITHOUT_EXTRA_MASS_FLOW x gd_metric "
@@ -521,6 +521,27 @@ def _run_models(ctx, cases):
             nflag += 1 if r[2] else 0
             r = r[:2]
         ll[k].append(r)
+    pw = [[] for _ in cases]
+    nwrap = 0
+    # the program model is run on every fork-isolated case and on every case up to 8x8 bins (its cost grows faster
+    # than that of the list-based models); the others are counted
+    psel = [j for j, k in enumerate(where) if cases[k].get("fork") or cases[k].get("intmax")
+            or len(cases[k]["p"]) * len(cases[k]["q"]) <= 64]
+    ctx.count("as-written program not run (more than 8x8 bins; variants)", len(args) - len(psel))
+    pres = dict(zip(psel, ctx.run_model("entry_p32", [args[j] for j in psel])))
+    for j, k in enumerate(where):
+        if j not in pres:
+            pw[k].append(None)
+            continue
+        r = pres[j]
+        # (no_wrap status dist F): the FastEMD program (Model/EmdP.v) executed as written for int (wrap32 after every int
+        # operation) and the decidable hypothesis no_wrap_b of C10_no_wrap_below_bound evaluated on the exact path
+        if isinstance(r, list) and len(r) == 4 and not r[0]:
+            nwrap += 1
+        pw[k].append(r)
+    _run_models.pw = pw
+    ctx.count("as-written program runs (variants)", len(psel))
+    ctx.count("as-written program runs with no_wrap_b FALSE (some int operation leaves int32)", nwrap)
     ctx.count("line-level model runs (variants)", len(args))
     ctx.count("line-level model runs with the companion flag SET", nflag)
     _run_models.ll = ll
@@ -532,7 +553,7 @@ def model(ctx, cases, outs):
     passed emd_cert_ok inside the model (theorem C10_model_emd_correct), so no separate check of the model's flow."""
     ms = _run_models(ctx, cases)
     kv = _known_verdicts(ctx, cases, outs, dict(enumerate(ms)))
-    return [{"r": m, "cert": True, "ll": l, "known": v} for m, l, v in zip(ms, _run_models.ll, kv)]
+    return [{"r": m, "cert": True, "ll": l, "known": v, "pw": w} for m, l, v, w in zip(ms, _run_models.ll, kv, _run_models.pw)]
 
 
 INT_MAX = 2 ** 31 - 1
@@ -546,9 +567,9 @@ def _known_verdicts(ctx, cases, outs, ms=None):
     """Attribution of a failure to a KNOWN finding, by call site (F26) or by the models (F21, F25); None = not attributed.
     F26: len(p) == len(q) == 0 and the process died.  F21: hang, max(C) == 2^31-1, the as-written probe does not finish,
     raises the companion flag and moves no supply.  F25 (int32 intermediate overflow although inputs and result fit int32):
-    the AS-WRITTEN model (Model.EmdW with wrap32 on every int operation) differs from the exact model on this input - which
-    by C10_no_wrap_below_bound needs an intermediate of magnitude >= 2^31 - and, when the implementation returned values,
-    reproduces the implementation's distance and flow on every variant (when it hung: the as-written run does not finish).
+    some int operation of the EXACT run leaves int32 on this input (no_wrap_b false: the decidable hypothesis of
+    C10_no_wrap_below_bound fails) and the AS-WRITTEN program (Model.EmdP with wrap32 after every int operation) reproduces
+    the implementation's distance and flow on every variant (when it hung: the as-written run does not finish).
     'OOD': the exact distance itself is not representable in int32 (outside the property).  The exact certified model
     must answer every variant in all cases."""
     res = [None] * len(cases)
@@ -571,8 +592,14 @@ def _known_verdicts(ctx, cases, outs, ms=None):
         for g, f in _variants(cases[k]):
             wargs.append(_margs(cases[k], g, f)); where.append(k)
     w32 = {k: [] for k in idx}
-    for k, r in zip(where, ctx.run_model("entry_w32", wargs)):
-        w32[k].append(r)
+    nowrap = {k: True for k in idx}
+    for k, r in zip(where, ctx.run_model("entry_p32", wargs)):
+        # r = (no_wrap status dist F)
+        if isinstance(r, list) and len(r) == 4:
+            nowrap[k] = nowrap[k] and bool(r[0])
+            w32[k].append(r[1:])
+        else:
+            w32[k].append(r)
     hangs = [k for k in idx if "hang" in outs[k] and _max_c(cases[k]) == INT_MAX]
     probe = dict(zip(hangs, ctx.run_model("entry_asis", [[cases[k]["p"], cases[k]["q"], cases[k]["c"],
                      [] if cases[k]["pen"] is None else [cases[k]["pen"]]] for k in hangs]))) if hangs else {}
@@ -589,7 +616,7 @@ def _known_verdicts(ctx, cases, outs, ms=None):
         if "hang" in o:
             if probe.get(k) == [0, 1, 1]:
                 res[k] = "F21"
-            elif any(isinstance(r, list) and r and r[0] != 0 for r in ws):
+            elif (not nowrap[k]) and any(isinstance(r, list) and r and r[0] != 0 for r in ws):
                 res[k] = "F25"
             continue
         if "v" not in o or len(o["v"]) != len(vs):
@@ -598,7 +625,7 @@ def _known_verdicts(ctx, cases, outs, ms=None):
         if impl == [[r[0], r[1] if f else []] for (g, f), r in zip(vs, exact)]:
             continue                       # nothing to attribute: the implementation agrees with the exact model
         asw = [[r[1], r[2]] if (isinstance(r, list) and len(r) == 3 and r[0] == 0) else None for r in ws]
-        if asw == impl:
+        if asw == impl and not nowrap[k]:
             res[k] = "F25"
     return res
 
@@ -623,6 +650,14 @@ def compare(case, out, mo):
             return "certified model gave no answer (out of fuel or its own certificate failed) on variant gd=%d flow=%d: %s" % (g, f, str(r)[:100])
         if r[0] != o[2]:
             return "distance differs on variant gd_metric=%d flow_type=%d: impl %d model %d" % (g, f, o[2], r[0])
+    # the as-written program (= the exact one when no_wrap_b holds, C10_no_wrap_below_bound) must return the
+    # implementation's distance and flow
+    for (g, f), o, r in zip(vs, out["v"], mo.get("pw", [])):
+        if isinstance(r, list) and len(r) == 4 and r[0]:
+            exp = [0, o[2], o[3] if f else []]
+            if r[1:] != exp:
+                return "program model (no int operation wraps) differs on variant gd_metric=%d flow_type=%d: impl %s model %s" % (
+                    g, f, str(exp)[:160], str(r[1:])[:160])
     # line-level model of min_cost_flow.hpp: same tie-breaking as the code, so the FLOWS must be identical
     for (g, f), o, r in zip(vs, out["v"], mo["ll"]):
         exp = [o[2], o[3] if f else []]
@@ -795,6 +830,11 @@ def kernel_crosscheck(ctx, cases, outs):
     r = ctx.coq_eval_eq("Model.EmdMcf", "entry_emdl", largs, lexp, tag="emdl")
     if not all(b is True for b in r):
         return "vm_compute evaluation of Model.EmdMcf.entry_emdl differs from the extracted program", len(args)
+    pargs = args[:12]
+    pexp = ctx.run_model("entry_p32", pargs)
+    r = ctx.coq_eval_eq("Model.EmdP", "entry_p32", pargs, pexp, tag="p32")
+    if not all(b is True for b in r):
+        return "vm_compute evaluation of Model.EmdP.entry_p32 differs from the extracted program", len(args)
     # the checker itself: kernel evaluation must accept what the extracted checker accepted
     cargs = []
     for k in idx:
@@ -871,7 +911,7 @@ def shrink_candidates(case):
 
 MANIFEST = {
     "level_text": (
-        "Machine-checked proofs (Coq 8.16, 53 theorems, all closed under the global context). (a) The extracted certificate "
+        "Machine-checked proofs (Coq 8.16, 55 theorems, all closed under the global context). (a) The extracted certificate "
         "checker emd_cert_ok is sound for all sizes and inputs: acceptance of (P, Q, C, penalty, d, F, alpha, beta, gamma) "
         "implies that d is exactly the transportation optimum plus penalty*|sum P - sum Q| of the property text (also against "
         "fractional flows) and that F is a feasible integral flow whose cost reproduces d; the value is unique; zero padding "
@@ -908,8 +948,11 @@ MANIFEST = {
         "with wrap32 on every int operation) differs from the exact model on that input and reproduces the implementation's "
         "distance and flow on every variant (or does not finish, for a hang); F21 by the as-written probe; F26 by call site "
         "(len 0 and the process dies). Everything else that hangs, crashes or disagrees is a violation. The theorems about "
-        "optimality speak about the exact (Z-valued) models; the link 'no intermediate reaches 2^31 => as-written = exact' "
-        "is proved per operation only (C10_no_wrap_below_bound_partial)."),
+        "optimality speak about the exact (Z-valued) models; the link to the int32 code is C10_no_wrap_below_bound (proved, all "
+        "inputs): Model/EmdP.v is the whole pipeline as a program over int operations, and whenever the decidable hypothesis "
+        "no_wrap_b holds (every int operation of the exact run is representable) executing it as written for int gives exactly "
+        "the exact result. no_wrap_b is evaluated for every case and variant (true for ~98.8% of them); there the as-written "
+        "program must return the implementation's distance and flow, and F25 may only be claimed where it is false."),
     "technique": "Coq proof of a certificate checker run on the implementation's output + two executable models (certifying, and line-level with exact flow correspondence) + run-time-checked hypothesis flag",
     "design_ref": "DESIGN.md section 7, C10",
 }
